@@ -70,6 +70,9 @@ def stmt_tok(s):
         return "Q %d %d %d %s" % (s[3], s[1], len(s[2]), " ".join(atom_tok(a) for a in s[2]))
     if k == "conv":
         return "v %s %d %d" % (var_tok(s[1]), s[2], s[3])
+    if k == "convi":
+        # ('convi', x, y, k, k2): x (of interface type I_k) = y (of interface type I_k2)
+        return "V %s %s %d %d" % (var_tok(s[1]), var_tok(s[2]), s[3], s[4])
     if k == "calli":
         # ('calli', x, xi, k, m, args, cs, d)
         return "j %d %d %s %s %d %d %d %s" % (s[6], s[7], "-" if s[1] is None else var_tok(s[1]), var_tok(s[2]), s[3], s[4], len(s[5]),
@@ -92,6 +95,11 @@ def expand(p):
                 ctr[1] += 1
                 tmp = ("L", 70 + ctr[1])
                 pre.append(("conv", tmp, a[1], a[2]))
+                args.append(tmp)
+            elif isinstance(a, tuple) and a[0] == "iconv":
+                ctr[1] += 1
+                tmp = ("L", 70 + ctr[1])
+                pre.append(("convi", tmp, a[3], a[1], a[2]))
                 args.append(tmp)
             else:
                 args.append(a)
@@ -119,6 +127,12 @@ def expand(p):
             return seq(pre + [("retcall", s[1], args, s[3])])
         if k == "assign" and isinstance(s[2], tuple) and s[2][0] == "conv":
             return ("conv", s[1], s[2][1], s[2][2])
+        if k == "assign" and isinstance(s[2], tuple) and s[2][0] == "iconv":
+            return ("convi", s[1], s[2][3], s[2][1], s[2][2])
+        if k == "return" and isinstance(s[1], tuple) and s[1][0] == "iconv":
+            ctr[1] += 1
+            tmp = ("L", 70 + ctr[1])
+            return ("seq", ("convi", tmp, s[1][3], s[1][1], s[1][2]), ("return", tmp))
         if k == "return" and isinstance(s[1], tuple) and s[1][0] == "conv":
             ctr[1] += 1
             tmp = ("L", 70 + ctr[1])
@@ -144,6 +158,10 @@ def prog_line(p, ctr=()):
         out += ["I", str(len(p["impls"]))]
         for im in p["impls"]:
             out += [str(len(im["funcs"]))] + [str(f) for f in im["funcs"]]
+    if p.get("ifaces"):
+        out += ["S", str(len(p["ifaces"]))]
+        for itf in p["ifaces"]:
+            out += [str(len(itf["methods"]))] + [str(len(md["ptypes"])) for md in itf["methods"]]
     return " ".join(" ".join(out).split())
 
 
@@ -189,6 +207,8 @@ def locals_of(s, acc=None):
         if isinstance(x, tuple) and x[0] == "nest":
             for a in x[2]:
                 v(a)
+        if isinstance(x, tuple) and x[0] == "iconv":
+            v(x[3])
 
     def c(cc):
         if cc[0] in ("nonnil",):
@@ -291,8 +311,15 @@ class Printer:
         fd = self.p["funcs"][f]
         if fd.get("impl"):
             j, m = fd["impl"]
-            return "X%dx%d" % (self.p["impls"][j]["iface"], m)
+            return "X%dx%d" % (self.owner(self.p["impls"][j]["iface"], m), m)
         return ("M%d" if fd.get("method") else "F%d") % f
+
+    def owner(self, ik, m):
+        """the interface that first declares method m of I_ik (an interface may repeat the methods of its base)"""
+        b = self.p["ifaces"][ik].get("base")
+        if b is not None and m < len(self.p["ifaces"][b]["methods"]):
+            return self.owner(b, m)
+        return ik
 
     def tyname(self, ty, k):
         """Go type of a MiniGo type: 'T' -> *T, ('I', i) -> I<i> (declared in package 0)"""
@@ -330,6 +357,14 @@ class Printer:
             return self.callexpr(a[1], a[2], k, a[3])
         if isinstance(a, tuple) and a[0] == "conv":
             return self.convexpr(a[1], a[2], k), []
+        if isinstance(a, tuple) and a[0] == "iconv":
+            # a value of interface type I_k2 where an I_k is expected: implicit, or spelled as a conversion
+            y = self.var(a[3], k)
+            it = self.tyname(("I", a[1]), k)
+            # (not through a slice literal or append: the analysis takes what is read back from those for non-nil,
+            # which is right for a fresh &S{} but not for a variable;
+            # nor as an explicit conversion I(y): the analysis takes the result of a conversion expression for non-nil)
+            return y, []
         if a == "new":
             return ["&%s{}", "new(%s)"][self.pick(2)] % self.T(k), []
         return self.var(a, k), []
@@ -346,8 +381,10 @@ class Printer:
             v = "&%s{}" % self.implname(j, k)
         # the conversion may also happen inside a composite literal or an append (other conversion sites for the
         # analysis; the value that comes out is the same)
-        sp = self.pick(8) if self.convsites else 0
+        sp = self.pick(9) if self.convsites else 0
         it = self.tyname(("I", ik), k)
+        if sp == 8:
+            return "%s(%s)" % (it, v)
         if sp == 4:
             return "[]%s{%s}[0]" % (it, v)
         if sp == 5:
@@ -360,7 +397,7 @@ class Printer:
 
     def calliexpr(self, xi, ik, m, args, k, cs):
         head = self.var(xi, k)
-        text = head + ".X%dx%d(" % (ik, m)
+        text = head + ".X%dx%d(" % (self.owner(ik, m), m)
         sites = []
         for i, a in enumerate(args):
             if i:
@@ -617,7 +654,7 @@ class Printer:
                     self.emit("")
                     self.emit("type I%d interface {" % ik)
                     for m, md in enumerate(itf["methods"]):
-                        self.emit("\tX%dx%d(%s) *T" % (ik, m, ", ".join("a%d %s" % (i, self.tyname(ty, 0)) for i, ty in enumerate(md["ptypes"]))))
+                        self.emit("\tX%dx%d(%s) *T" % (self.owner(ik, m), m, ", ".join("a%d %s" % (i, self.tyname(ty, 0)) for i, ty in enumerate(md["ptypes"]))))
                     self.emit("}")
             else:
                 self.emit("var _ *%s" % self.T(k))
